@@ -13,11 +13,11 @@ from deap.tools import support
 ANCHORS = [("deap/tools/support.py", ["Statistics", "MultiStatistics", "Logbook", "identity"])]
 LEVEL = "proof"
 RULE = ("exhaustive: every sequence of length <= 4 (quick) / 5 (thorough) over {record, stream, pop(0), pop(-1), del[0], "
-        "del[-1], del[0:2], del[::-2], select, pickle} + final stream, without and with one chapter; random: histories of "
+        "del[-1], del[0:2], del[::-2], select, pickle} + final stream, without chapter, with one chapter, and (one op shorter) with a chapter holding a sub-chapter; random: histories of "
         "length <= 12 over records with 0..3 chapters (sub-chapters, optional fields, colliding keys, non-uniform chapter "
         "sets), positive/negative/out-of-range indices, slices with steps +-1,+-2,+-3, explicit/default headers, "
         "log_header, pickle protocols 0..5; statistics: 1..3 statistics objects x 5 key functions x 8 functions with frozen "
-        "positional/keyword arguments, re-registration, compile -> record pipelines. "
+        "positional/keyword arguments, re-registration, statistics objects sharing one key function object and the same field names but different functions, compile -> record pipelines. "
         "Non-trivial = distinct history with at least one deletion/pop/stream after a record, or a statistics case with "
         "a frozen argument or more than one function")
 EXHAUSTIVE = {"quick": False, "thorough": False}
@@ -28,11 +28,10 @@ TRUSTED = ["the text parser of this module (which record ids and whether a heade
            "CPython list / dict / defaultdict / pickle semantics (list.pop, slice.indices, dict.update); the index list of a "
            "slice is computed by Python and handed to the model",
            "column formatting of the printed text is not modelled (only which rows and whether a header are emitted)"]
-ASSUMPTIONS = ["chapter alignment is demanded for logbooks all of whose records carry the same chapter names (DESIGN section 6); "
-               "indices are in range; deletions on logbooks with sub-chapters only compare model and implementation",
-               "Logbook.pop is the list-level primitive: on a logbook that has chapters it removes the row from the logbook "
-               "only (the chapters keep theirs). The oracle treats such a call like a by-construction misalignment (outside the "
-               "premise) and only compares model and implementation afterwards; `del logbook[i]` is the chapter-aware deletion",
+ASSUMPTIONS = ["chapter alignment (at every depth) is demanded for logbooks all of whose records carry the same chapter names at "
+               "every level (DESIGN section 6); integer indices out of range must raise and change nothing; pop / del on a "
+               "logbook whose chapters are misaligned by construction (records with differing chapter names) only compare "
+               "model and implementation, and the oracle stops for the rest of that history",
                "header_once holds only while the logbook is never emptied of all delivered rows (known finding header-after-empty, F5)"]
 EXPLANATION = ("Theorems C18.* are proved over all histories of the model Core/Logbook.lean (no length bound); the correspondence "
                "compares, after every operation of a history, the complete observable state (rows, buffindex, every chapter "
@@ -40,12 +39,6 @@ EXPLANATION = ("Theorems C18.* are proved over all histories of the model Core/L
                "statement with plain Python list semantics.")
 
 Logbook = tools.Logbook
-
-# Reading switch (see ASSUMPTIONS): with C18_STRICT_POP=1 a `Logbook.pop` on a logbook that has chapters is held to the
-# alignment clause as well ("always has as many records as the logbook"), which the code does not satisfy: pop removes
-# the row from the logbook only.  Default: pop is the list-level primitive, `del logbook[i]` the chapter-aware deletion.
-import os
-STRICT_POP = os.environ.get("C18_STRICT_POP", "") == "1"
 
 # ------------------------------------------------------------------------------------------------
 # names
@@ -163,10 +156,6 @@ class Shadow(object):
     def __init__(self):
         self.entries = []          # surviving records, in order
         self.ever = []             # every record ever entered
-        self.popped_with_chapters = False
-        self.unprintable = False   # a pop on a logbook with chapters: the printed text is garbled from here on
-        self.deleted = False
-        self.deleted_with_sub = False
         self.lost = False          # an out-of-premise operation made the expected content undefined
         self.delivered = {}        # rid -> times delivered
         self.header_ops = []       # op indices of the streams that carried a header (filled by evaluate)
@@ -182,15 +171,14 @@ class Shadow(object):
         return any(dict_keys(e) for e in self.ever)
 
     def chapters_checked(self):
-        return not self.lost and self.uniform_top() and not self.popped_with_chapters
+        return not self.lost and self.uniform_top()
 
     def deep_checked(self):
-        return self.chapters_checked() and not self.deleted and deep_uniform(self.ever)
+        return self.chapters_checked() and deep_uniform(self.ever)
 
     def printable(self):
         """the premise under which the printed text is defined: every chapter at every level aligned"""
-        return (not self.lost and deep_uniform(self.ever) and not self.popped_with_chapters
-                and not self.unprintable and not self.deleted_with_sub)
+        return not self.lost and deep_uniform(self.ever)
 
     def norm(self, i):
         n = len(self.entries)
@@ -198,17 +186,12 @@ class Shadow(object):
         return p if 0 <= p < n else None
 
     def delete_in_premise(self):
-        return not self.any_chapter() or (self.uniform_top() and not self.popped_with_chapters)
+        return not self.any_chapter() or deep_uniform(self.ever)
 
     # operations ------------------------------------------------------------------------------
     def record(self, e):
         self.entries.append(e)
         self.ever.append(e)
-
-    def note_delete(self):
-        self.deleted = True
-        if has_sub(self.ever):
-            self.deleted_with_sub = True
 
 
 def plan(ops):
@@ -221,8 +204,7 @@ def plan(ops):
         executed = True
         if k in ("stream", "str"):
             executed = sh.printable()
-        out.append((executed, {"entries": list(sh.entries), "delivered": dict(sh.delivered), "lost": sh.lost,
-                              "popped_with_chapters": sh.popped_with_chapters}))
+        out.append((executed, {"entries": list(sh.entries), "delivered": dict(sh.delivered), "lost": sh.lost}))
         if sh.lost or not executed:
             continue
         if k == "rec":
@@ -230,12 +212,10 @@ def plan(ops):
         elif k == "pop":
             p = sh.norm(0 if op[1] is None else op[1])
             if p is not None:
-                if sh.any_chapter():
-                    sh.unprintable = True
-                    if not STRICT_POP:
-                        sh.popped_with_chapters = True
-                del sh.entries[p]
-                sh.note_delete()
+                if not sh.delete_in_premise():
+                    sh.lost = True
+                else:
+                    del sh.entries[p]
         elif k == "del":
             p = sh.norm(op[1])
             if p is not None:
@@ -243,7 +223,6 @@ def plan(ops):
                     sh.lost = True
                 else:
                     del sh.entries[p]
-                    sh.note_delete()
         elif k == "dels":
             sl = slice(*op[1])
             if len(range(*sl.indices(len(sh.entries)))):
@@ -251,7 +230,6 @@ def plan(ops):
                     sh.lost = True
                 else:
                     del sh.entries[sl]
-                    sh.note_delete()
         elif k == "stream":
             for e in sh.entries:
                 sh.delivered[e["rid"]] = 1
@@ -388,25 +366,24 @@ def run_history(ops):
             i = op[1]
             toks.append("O:%d" % (0 if i is None else i))
             p = sh.norm(0 if i is None else i)
+            inprem = sh.delete_in_premise()
             try:
                 r = log.pop() if i is None else log.pop(i)
                 obs = "ok:" + show_row(r)
-                if checks:
+                if checks and inprem:
                     if p is None:
                         fail("op %d: pop(%r) out of range returned %r" % (j, i, r))
                     elif r != scalars(sh.entries[p]):
                         fail("op %d: pop(%r) returned %r, the addressed record is %r" % (j, i, r, scalars(sh.entries[p])))
             except IndexError:
                 obs = "raise"
-                if checks and p is not None:
-                    fail("op %d: pop(%r) raised IndexError on a logbook of %d records" % (j, i, len(sh.entries)))
+                if checks and p is not None and inprem:
+                    fail("op %d: pop(%r) raised IndexError on an aligned logbook of %d records" % (j, i, len(sh.entries)))
             if p is not None and checks:
-                if sh.any_chapter():
-                    sh.unprintable = True
-                    if not STRICT_POP:
-                        sh.popped_with_chapters = True
-                del sh.entries[p]
-                sh.note_delete()
+                if not inprem:
+                    sh.lost = True
+                else:
+                    del sh.entries[p]
         elif k == "del":
             i = op[1]
             toks.append("D:%d" % i)
@@ -424,7 +401,6 @@ def run_history(ops):
                     sh.lost = True
                 else:
                     del sh.entries[p]
-                    sh.note_delete()
         elif k == "dels":
             sl = slice(*op[1])
             idx = list(range(*sl.indices(len(log))))
@@ -442,7 +418,6 @@ def run_history(ops):
                     sh.lost = True
                 else:
                     del sh.entries[sl]
-                    sh.note_delete()
         elif k == "pickle":
             toks.append("K")
             before = dump_state(log)
@@ -511,11 +486,18 @@ def frozen(fn, args):
     return (), {}
 
 
-def build_stats(keycode, data_is_plain, calls, label):
+def build_stats(keycode, data_is_plain, calls, label, shared=None):
+    """shared: a dict keycode -> key function object, so that statistics objects with the same key code use the
+    very same function object (as `Statistics(key=len)` written twice does)"""
     def wrap_key(f):
+        if shared is not None and keycode in shared:
+            return shared[keycode]
+
         def key(elem):
             calls.append(("key", label, elem))
             return f(elem)
+        if shared is not None:
+            shared[keycode] = key
         return key
     if keycode == "id":
         return tools.Statistics() if data_is_plain else tools.Statistics(key=wrap_key(lambda ind: ind[0]))
@@ -602,8 +584,9 @@ def eval_stats(d):
 
 def build_multi(d, calls):
     objs = {}
+    shared = {} if d.get("share_keys") else None
     for sname, keycode in d["stats"]:
-        objs[sname] = build_stats(keycode, False, calls, sname)
+        objs[sname] = build_stats(keycode, False, calls, sname, shared)
     ms = tools.MultiStatistics(**objs) if d.get("ctor", "kw") == "kw" else tools.MultiStatistics(list(objs.items()))
     toks = ["s:%d:%s" % (NUM[s], k) for s, k in d["stats"]]
     regs = dict((s, []) for s, _ in d["stats"])
@@ -651,7 +634,7 @@ def eval_multi(d):
     if isinstance(res, dict) and set(order) != set(keyof):
         exp += " keys=%r" % (order,)
     lines, expect = ["C18 multi " + " ".join(toks)], [exp]
-    tag = "multi/stats=%d/regs=%d" % (len(keyof), len(d["regs"]))
+    tag = "multi/stats=%d/regs=%d%s" % (len(keyof), len(d["regs"]), "/shared-key" if d.get("share_keys") else "")
     # pipeline: compile per generation -> logbook.record(gen=..., **record) -> chapters
     if d.get("gens"):
         ops = []
@@ -702,8 +685,6 @@ def evaluate(d):
             flags.append("sub")
         if final and final["lost"]:
             flags.append("lost")
-        if final and final["popped_with_chapters"]:
-            flags.append("pop+chapters")
     tag = "hist/len=%d/chapters=%d/%s%s" % (
         min(len(ops), 13), chap,
         "+".join(sorted(x for x in kinds if x in ("pop", "del", "dels", "pickle", "stream"))) or "record-only",
@@ -801,7 +782,7 @@ def rand_history(rng, length, perturb=0.0, nch=None, sub=None, oob=0.08):
                 if sc.subs.get(c) and rng.random() < 0.5:
                     path.append(rng.choice(sc.subs[c]))
             ops.append(["sel", path, names])
-        elif r < 0.42 and (not sc.chs or rng.random() < 0.2):    # pop leaves chapters alone: mostly chapter-less
+        elif r < 0.42:
             i = rand_index(rng, n) if rng.random() > oob else rng.choice([n, -n - 1])
             if profile == "f5-prone":
                 i = rng.choice([0, 0, -1])
@@ -845,6 +826,8 @@ def exh_history(seq, chapter):
             e = {"rid": rid, "gen": rid - 100001}
             if chapter:
                 e["fit"] = {"max": 10 + rid - 100001}
+            if chapter == 2:
+                e["fit"]["s1"] = {"q": 20 + rid - 100001}
             ops.append(["rec", e])
             rid += 1
         elif s == "stream":
@@ -862,7 +845,8 @@ def exh_history(seq, chapter):
         elif s == "dels-2":
             ops.append(["dels", [None, None, -2]])
         elif s == "sel":
-            ops.append(["sel", ["fit"] if chapter else [], ["rid", "max"] if chapter else ["gen"]])
+            ops.append(["sel", (["fit", "s1"] if chapter == 2 else ["fit"]) if chapter else [],
+                        ["rid", "max"] if chapter else ["gen"]])
         elif s == "pickle":
             ops.append(["pickle", 2])
     ops.append(["stream"])
@@ -904,14 +888,28 @@ def rand_stats(rng):
 
 
 def rand_multi(rng, pipeline):
-    snames = rng.sample(CHAPTERS, rng.randint(1, 3))
-    stats = [[s, rng.choice(["len", "item0", "last", "sum", "id"])] for s in snames]
-    regs = []
-    for _ in range(rng.randint(0 if not pipeline else 1, 5)):
-        name, fn, args = rand_reg(rng, STAT_NAMES)
-        target = "*" if (pipeline or rng.random() < 0.6) else rng.choice(snames)
-        regs.append([target, name, fn, args])
-    d = {"k": "multi", "stats": stats, "regs": regs, "data": rand_data(rng, True), "ctor": rng.choice(["kw", "kw", "items"])}
+    twin = rng.random() < 0.35
+    if twin:
+        # statistics objects that look alike (same key function object, same field names in the same order) but
+        # compute different things: every name is registered in each object separately, with its own function
+        snames = rng.sample(CHAPTERS, rng.randint(2, 3))
+        kc = rng.choice(["len", "item0", "last", "sum", "id"])
+        stats = [[s, kc] for s in snames]
+        regs = []
+        for name in rng.sample(STAT_NAMES, rng.randint(1, 3)):
+            for s in snames:
+                _, fn, args = rand_reg(rng, [name])
+                regs.append([s, name, fn, args])
+    else:
+        snames = rng.sample(CHAPTERS, rng.randint(1, 3))
+        stats = [[s, rng.choice(["len", "item0", "last", "sum", "id"])] for s in snames]
+        regs = []
+        for _ in range(rng.randint(0 if not pipeline else 1, 5)):
+            name, fn, args = rand_reg(rng, STAT_NAMES)
+            target = "*" if (pipeline or rng.random() < 0.6) else rng.choice(snames)
+            regs.append([target, name, fn, args])
+    d = {"k": "multi", "stats": stats, "regs": regs, "data": rand_data(rng, True), "ctor": rng.choice(["kw", "kw", "items"]),
+         "share_keys": twin or rng.random() < 0.5}
     if pipeline:
         d["gens"] = [rand_data(rng, True) for _ in range(rng.randint(1, 4))]
         d["stream_each"] = rng.random() < 0.5
@@ -946,8 +944,8 @@ def generate(tier, rng, mult):
     yield {"k": "hist", "ops": [["rec", {"rid": 100001}], ["rec", {"rid": 100002, "a": 1}], ["sel", [], []], ["sel", [], ["gen"]], ["stream"]]}
     # exhaustive short histories
     maxlen = 5 if thorough else 4
-    for chapter in (False, True):
-        for n in range(0, maxlen + 1):
+    for chapter in (0, 1, 2):           # no chapter / one chapter / one chapter with a sub-chapter
+        for n in range(0, maxlen + 1 - (1 if chapter == 2 else 0)):
             for seq in itertools.product(EXH_OPS, repeat=n):
                 if n == maxlen and not thorough and rng.random() < 0.5:
                     continue            # quick: half of the longest layer, the full layer in the thorough tier
